@@ -19,6 +19,22 @@ pub fn check_len_roundtrip<L: Length>(len: usize, s: u8) -> bool {
         Err(_) => false,
     }
 }
+/// the prefix alone reads back as (len, []), and every proper truncation of it is an error - never a value, never a panic
+/// (C16 "a truncated prefix is an error", C02)
+pub fn check_len_bare<L: Length>(len: usize, cut: usize) -> bool {
+    let p = L::serialize(len);
+    let n = p.len();
+    if n == 0 || n > 7 { return false; }
+    let mut buf = [0u8; 8];
+    let mut i = 0;
+    while i < n { buf[i] = p[i]; i += 1; }
+    let whole = match L::deserialize(&buf[..n]) {
+        Ok((m, rest)) => m == len && rest.is_empty(),
+        Err(_) => false,
+    };
+    let k = cut % n;
+    whole && L::deserialize(&buf[..k]).is_err()
+}
 /// decode(encode(v)) == (v, []) (C17, C01)
 pub fn check_enc_roundtrip<T: PartialEq, E: Encoding<T>>(v: &T) -> bool {
     let b = E::encode(v);
@@ -74,6 +90,21 @@ mod proofs {
         let s: u8 = kani::any();
         assert!(check_len_roundtrip::<length::Lllv>(len, s));
     }
+    macro_rules! bare { ($name:ident, $ty:ty, $max:expr) => {
+        #[kani::proof]
+        #[kani::unwind(9)]
+        fn $name() {
+            let len: usize = kani::any();
+            kani::assume(len <= $max);
+            let cut: usize = kani::any();
+            kani::assume(cut < 8);
+            assert!(check_len_bare::<$ty>(len, cut));
+        }
+    } }
+    bare!(tlv_bare, length::Tlv, 65535);
+    bare!(adpu_bare, length::Adpu, 65535);
+    bare!(llv_bare, length::Llv, 99);
+    bare!(lllv_bare, length::Lllv, 999);
     // ---- fixed-width integers: loop-free, full domain (also cross-checks the std adapters T6)
     macro_rules! int_rt { ($name:ident, $ty:ty, $enc:ty) => {
         #[kani::proof]
